@@ -1,18 +1,30 @@
 (* DC12.v — dispatch entries of property C12 (altitude-key conversions): (arguments, observed output) ↦ verdict.
    corr  = the int64 model (AltKey.z2key64m / key2z64m / z2minkey64m / validatem: what Go computes, wrap-around and panic included)
            returns the observed value;
-   prop  = the integer-only checker AltKey.check_conv (proved <-> conv_spec over the reals) accepts the OBSERVED value, on the property's
-           domain (zooms and base exponent in 0..35; any offset); outside the domain C12 says nothing (prop = true, corr still compared);
-   class = "int64_overflow" iff some int64 operation of the computation wraps (or the shift count -MinInt64 panics): there the Go code
-           does not compute the unbounded model (finding; witness ConvertZToMinMaxAltitudekey(0,25,35,0,1<<29) = (0, 2^35-1, nil)). *)
+   prop  = the integer-only checker AltKey.check_conv (proved <-> conv_spec over the reals) accepts the OBSERVED value: for the two exported
+           conversions a zoom outside 0..35 must give an error (any base exponent / offset); with zooms in 0..35 and |zBaseExponent| <= 64
+           the full cover specification; for larger exponents see conv_prop. Soundness of prop: conv_prop_sound.
+           The unexported helpers (convertZToMinAltitudekey, validateIndexExists) have no zoom guard, their specifications none either;
+   class = "int64_overflow" only when the int64 model AGREES with the observation (a predicted panic included), some int64 operation of
+           it wrapped, and prop fails (verdict_of, panic_verdict). Witnesses: ConvertZToMinMaxAltitudekey(0,25,35,0,1<<29) = (0, 2^35-1, nil),
+           ConvertAltitudekeyToMinMaxZ(0,0,35,0,1<<54) = (0,1023,nil), ConvertZToMinMaxAltitudekey(0,25,10,MinInt64+10,0) panics. *)
 From Coq Require Import ZArith String List Bool.
 From SID Require Import Base Wire AltKeyCore AltKey.
 Import ListNotations.
 Open Scope string_scope.
 Open Scope Z_scope.
 
-Definition zoom_ok (z : Z) : bool := (0 <=? z) && (z <=? 35).
-Definition cls {A} (m : M A) : string := if exact64 m then "-" else "int64_overflow".
+(* zoom_ok (0..35) is AltKeyCore's, the guard of the two exported conversions *)
+
+(* THE FINDING CLASS IS NARROW: it is granted only when (1) the int64-faithful model agrees with the observation (corr, a predicted panic
+   included), (2) some int64 operation of that computation wrapped, and (3) the property check on the observed value fails. A disagreement
+   between the int64 model and the code is never excused (class "-"), nor is a wrap that leaves the property intact (plain pass). *)
+Definition verdict_of (corr prop exact : bool) (model : val) : verdict :=
+  mkv corr prop (if corr && negb prop && negb exact then "int64_overflow" else "-") model.
+(* observed panic: excused only when the int64 model predicts the panic (the negation of a shift count equal to MinInt64 wraps) *)
+Definition panic_verdict (predicted : bool) : verdict := if predicted then mkv true false "int64_overflow" VPanic else bad_case.
+
+Definition small (n : Z) : bool := (- 64 <=? n) && (n <=? 64).      (* size guard of the integer checkers: they cost 2^|n| *)
 
 Definition res_val (m : option (result (Z * Z))) : val :=
   match m with
@@ -38,36 +50,48 @@ Definition conv_model (fwd : bool) (i zs zt E O : Z) : M (result (Z * Z)) :=
   if fwd then z2key64m i zs zt E O else key2z64m i zs zt E O.
 Definition conv_src (fwd : bool) (zs E O : Z) : scale := if fwd then sid_scale zs else key_scale zs E O.
 Definition conv_tgt (fwd : bool) (zt E O : Z) : scale := if fwd then key_scale zt E O else sid_scale zt.
-Definition conv_dom (zs zt E : Z) : bool := zoom_ok zs && zoom_ok zt && zoom_ok E.
-Definition conv_prop (fwd : bool) (i zs zt E O : Z) (o : result (Z * Z)) : bool :=
-  if conv_dom zs zt E then check_conv (conv_src fwd zs E O) i (conv_tgt fwd zt E O) o else true.
+(* the property on the observed value o (m = the int64 model of the same call):
+   - a zoom outside 0..35 must be answered with an error (= check_conv there, lemma check_conv_bad_zoom; no 2^zoom is evaluated);
+   - zooms in 0..35 and |zBaseExponent| <= 64: the full check_conv (the theorems hold for every exponent; C12's own quantifier is 0..35);
+   - |zBaseExponent| > 64 (check_conv would cost 2^|E|): the property holds if the int64 model ran without any wrap and the observation
+     equals it — then the observation IS the unbounded model's result, which meets conv_spec (lemma conv_prop_large_exponent_sound);
+     otherwise it is not decided and counts as failed (class int64_overflow only if the int64 model still agrees with the code). *)
+Definition conv_prop (fwd : bool) (i zs zt E O : Z) (m : M (result (Z * Z))) (o : result (Z * Z)) : bool :=
+  if negb (zoom_ok zs && zoom_ok zt) then (match o with Err => true | Ok _ => false end)
+  else if small E then check_conv (conv_src fwd zs E O) i (conv_tgt fwd zt E O) o
+  else exact64 m && same_res (go_result m) o.
 
 Definition d_conv (fwd : bool) (args : list val) (obs : val) : verdict :=
   match args with
   | [VZ i; VZ zs; VZ zt; VZ E; VZ Of] =>
       let m := conv_model fwd i zs zt E Of in
       match obs with
-      | VPanic => match m with None => mkv true true "int64_overflow" VPanic | Some _ => bad_case end
+      | VPanic => panic_verdict (match m with None => true | Some _ => false end)
       | _ => match obs_res obs with
-             | Some o => mkv (same_res (go_result m) o) (conv_prop fwd i zs zt E Of o) (cls m) (res_val (go_result m))
+             | Some o => verdict_of (same_res (go_result m) o) (conv_prop fwd i zs zt E Of m o) (exact64 m) (res_val (go_result m))
              | None => bad_case
              end
       end
   | _ => bad_case
   end.
 
-(* convertZToMinAltitudekey *)
+(* convertZToMinAltitudekey (no zoom guard in the code, none in minkey_spec): check_minkey when all three exponents are small, otherwise
+   "no wrap and equal to the int64 model" as above *)
+Definition same_min (m : option (result Z)) (o : result Z) : bool :=
+  match m, o with Some (Ok a), Ok b => a =? b | Some Err, Err => true | _, _ => false end.
 Definition d_minkey (args : list val) (obs : val) : verdict :=
   match args with
   | [VZ f; VZ z; VZ out; VZ E; VZ Of] =>
       let m := z2minkey64m f z out E Of in
       let mv := match go_result m with None => VPanic | Some Err => VE (VZ 0) | Some (Ok o) => VZ o end in
       match obs with
-      | VPanic => match m with None => mkv true true "int64_overflow" VPanic | Some _ => bad_case end
+      | VPanic => panic_verdict (match m with None => true | Some _ => false end)
       | _ => match (match obs with VZ o => Some (Ok o) | VE _ => Some Err | _ => None end) with
              | Some o =>
-                 mkv (match go_result m, o with Some (Ok a), Ok b => a =? b | Some Err, Err => true | _, _ => false end)
-                     (if conv_dom z out E then check_minkey (sid_scale z) f (key_scale out E Of) o else true) (cls m) mv
+                 let corr := same_min (go_result m) o in
+                 verdict_of corr
+                   (if small z && small out && small E then check_minkey (sid_scale z) f (key_scale out E Of) o else exact64 m && corr)
+                   (exact64 m) mv
              | None => bad_case
              end
       end
@@ -81,11 +105,11 @@ Definition d_validate (args : list val) (obs : val) : verdict :=
       let m := validatem i z neg in
       let mv := match go_result m with None => VPanic | Some true => VB true | Some false => VE (VB false) end in
       match obs with
-      | VPanic => match m with None => mkv true true "int64_overflow" VPanic | Some _ => bad_case end
+      | VPanic => panic_verdict (match m with None => true | Some _ => false end)
       | VB true | VE (VB false) =>
           let b := negb (is_err obs) in
-          mkv (match go_result m with Some b' => Bool.eqb b b' | None => false end)
-              (if zoom_ok z then Bool.eqb b (in_rangeb (mkscale z 0 0 neg) i) else true) (cls m) mv
+          let corr := match go_result m with Some b' => Bool.eqb b b' | None => false end in
+          verdict_of corr (if small z then Bool.eqb b (in_rangeb (mkscale z 0 0 neg) i) else exact64 m && corr) (exact64 m) mv
       | VB false | VE (VB true) => mkv false false "-" mv        (* error flag and boolean disagree *)
       | _ => bad_case
       end
@@ -101,8 +125,15 @@ Definition mutual_ok (exact : bool) (f k : Z) (zr kr : result (Z * Z)) : bool :=
   | _, _ => true
   end.
 
-(* round trips. first = the call (fwd) on (i, zs, zt, E, O); then for each returned index j (and its two outer neighbours) the opposite
-   call on (j, zt, zs, E, O).  observed = [first; [[j; result_j] ...]] *)
+(* round trips. first = the call (fwd) on (i, zs, zt, E, O); then the opposite call on (j, zt, zs, E, O) for every probe j of the returned
+   range (harness/props/c12: the whole range and its two outer neighbours when short, else both ends, their neighbours and 8 evenly
+   spaced interior points).  observed = [first; [[j; result_j] ...]] *)
+Definition probes (mn mx : Z) : list Z :=
+  if mx <? mn then []
+  else if mx - mn <=? 20 then zrange (mn - 1) (mx + 1)
+  else [mn - 1; mn; mn + 1] ++ map (fun q => mn + (mx - mn) * q / 9) [1; 2; 3; 4; 5; 6; 7; 8] ++ [mx - 1; mx; mx + 1].
+Fixpoint list_eqZ (a b : list Z) : bool :=
+  match a, b with [], [] => true | x :: a', y :: b' => (x =? y) && list_eqZ a' b' | _, _ => false end.
 Fixpoint all_pairs (l : list val) : option (list (Z * result (Z * Z))) :=
   match l with
   | [] => Some []
@@ -112,7 +143,14 @@ Fixpoint all_pairs (l : list val) : option (list (Z * result (Z * Z))) :=
 Definition d_roundtrip (fwd : bool) (args : list val) (obs : val) : verdict :=
   match args, obs with
   | [VZ i; VZ zs; VZ zt; VZ E; VZ Of], VPanic =>
-      if exact64 (conv_model fwd i zs zt E Of) then bad_case else mkv true true "int64_overflow" VPanic
+      (* a panic is excused only if the int64 model predicts it: in the first call, or in a back call on one of the probes *)
+      let m0 := conv_model fwd i zs zt E Of in
+      panic_verdict (match m0 with
+                     | None => true
+                     | Some (Ok (mn, mx), _) =>
+                         existsb (fun j => match conv_model (negb fwd) j zt zs E Of with None => true | Some _ => false end) (probes mn mx)
+                     | Some (Err, _) => false
+                     end)
   | [VZ i; VZ zs; VZ zt; VZ E; VZ Of], VL [first; VL rest] =>
       match obs_res first, all_pairs rest with
       | Some o0, Some ps =>
@@ -122,11 +160,15 @@ Definition d_roundtrip (fwd : bool) (args : list val) (obs : val) : verdict :=
           (* exact regime of the backward direction: key cells at least 1 m tall, or spatial-ID cells at least 1 m tall *)
           let kz := if fwd then zt else zs in let z := if fwd then zs else zt in
           let regime := (kz <=? E) || (z <=? zorigin) in
-          let corr := same_res (go_result m0) o0 && forallb (fun pm => same_res (go_result (snd pm)) (snd (fst pm))) (combine ps ms) in
-          let prop := conv_prop fwd i zs zt E Of o0
-                      && forallb (fun p => conv_prop (negb fwd) (fst p) zt zs E Of (snd p)
-                                           && (if fwd then mutual_ok regime i (fst p) o0 (snd p) else mutual_ok regime (fst p) i (snd p) o0)) ps in
-          mkv corr prop (if exact then "-" else "int64_overflow")
+          let expected := match o0 with Ok (mn, mx) => probes mn mx | Err => [] end in
+          let corr := same_res (go_result m0) o0 && list_eqZ (map fst ps) expected
+                      && forallb (fun pm => same_res (go_result (snd pm)) (snd (fst pm))) (combine ps ms) in
+          let prop := conv_prop fwd i zs zt E Of m0 o0
+                      && forallb (fun pm => let p := fst pm in
+                                            conv_prop (negb fwd) (fst p) zt zs E Of (snd pm) (snd p)
+                                            && (if fwd then mutual_ok regime i (fst p) o0 (snd p) else mutual_ok regime (fst p) i (snd p) o0))
+                                 (combine ps ms) in
+          verdict_of corr prop exact
               (VL [res_val (go_result m0); VL (map (fun pm => VL [VZ (fst (fst pm)); res_val (go_result (snd pm))]) (combine ps ms))])
       | _, _ => bad_case
       end
@@ -140,6 +182,40 @@ Definition table_C12 : table :=
    ("validateIndexExists", fun _ => d_validate);
    ("RoundTripZ", fun _ => d_roundtrip true);
    ("RoundTripK", fun _ => d_roundtrip false)].
+
+Lemma check_conv_bad_zoom s i t r : zooms_okb s t = false -> check_conv s i t r = match r with Err => true | Ok _ => false end.
+Proof. intros H. destruct r as [[mn mx]|]; cbn [check_conv]; rewrite H; reflexivity. Qed.
+(* conv_prop is check_conv for small exponents and for bad zooms ... *)
+Lemma conv_prop_is_check_conv fwd i zs zt E O m o : small E = true \/ zoom_ok zs && zoom_ok zt = false ->
+  conv_prop fwd i zs zt E O m o = check_conv (conv_src fwd zs E O) i (conv_tgt fwd zt E O) o.
+Proof.
+  intros H. unfold conv_prop. destruct (zoom_ok zs && zoom_ok zt) eqn:Z; cbn [negb].
+  - destruct H as [->|H]; [reflexivity|discriminate].
+  - symmetry. apply check_conv_bad_zoom. unfold zooms_okb. destruct fwd; exact Z.
+Qed.
+(* ... and for every other exponent its answer `true` is justified by the int64 exactness theorems: no wrap + equal to the int64 model
+   means the observation is the unbounded model's result, which meets the specification *)
+Lemma same_res_eq m o : same_res m o = true -> m = Some o.
+Proof.
+  destruct m as [[[a b]|]|], o as [[c d]|]; cbn; try discriminate; [|reflexivity].
+  rewrite andb_true_iff, !Z.eqb_eq. intros [-> ->]. reflexivity.
+Qed.
+Lemma conv_prop_large_exponent_sound fwd i zs zt E O o :
+  exact64 (conv_model fwd i zs zt E O) && same_res (go_result (conv_model fwd i zs zt E O)) o = true ->
+  conv_spec (conv_src fwd zs E O) i (conv_tgt fwd zt E O) o.
+Proof.
+  rewrite andb_true_iff. intros [X S]. apply same_res_eq in S. destruct fwd; cbn [conv_model conv_src conv_tgt] in *.
+  - destruct (z2key64_meets_spec i zs zt E O X) as (r & R & _ & C). rewrite R in S. injection S as <-. exact C.
+  - destruct (key2z64_meets_spec i zs zt E O X) as (r & R & _ & C). rewrite R in S. injection S as <-. exact C.
+Qed.
+Theorem conv_prop_sound fwd i zs zt E O o :
+  conv_prop fwd i zs zt E O (conv_model fwd i zs zt E O) o = true -> conv_spec (conv_src fwd zs E O) i (conv_tgt fwd zt E O) o.
+Proof.
+  intros H. destruct (zoom_ok zs && zoom_ok zt) eqn:Z; [destruct (small E) eqn:S|].
+  - rewrite conv_prop_is_check_conv in H by (left; exact S). now apply check_conv_sound.
+  - unfold conv_prop in H. rewrite Z, S in H. cbn [negb] in H. now apply conv_prop_large_exponent_sound.
+  - rewrite conv_prop_is_check_conv in H by (right; exact Z). now apply check_conv_sound.
+Qed.
 
 (* the law checked on round trips holds of the models (so a rejection is a defect of the implementation, not of the checker) *)
 Lemma mutual_ok_model f z k kz E O : mutual_ok ((kz <=? E) || (z <=? zorigin)) f k (z2key f z kz E O) (key2z k kz z E O) = true.
